@@ -39,6 +39,100 @@ def manifest_lines(root):
     return out
 
 
+def check_preserved(ctx, scen, root, lines_before, path):
+    lines_after = manifest_lines(root)
+    ign_before = set(i for v in lines_before.values() for i in v[3])
+    ign_after = set(i for v in lines_after.values() for i in v[3])
+    if not ign_before <= ign_after:
+        ctx.fail('ignore-entries-lost', scen, str(sorted(ign_before - ign_after)))
+    for mp, (keep, tags, lines, _ign) in lines_before.items():
+        if mp not in lines_after:
+            continue
+        keep2, tags2, lines2, _ign2 = lines_after[mp]
+        if keep != keep2:
+            ctx.fail('dist-timestamp-entries-changed', dict(scen, manifest=mp), f'{keep} -> {keep2}')
+        for fp, tg in tags.items():
+            if fp in tags2 and not (tags2[fp] <= tg) and os.path.isfile(os.path.join(root, fp)):
+                ctx.fail('entry-type-changed', dict(scen, manifest=mp), f'{fp}: {tg} -> {tags2[fp]}')
+        # entries for paths outside the updated directory stay as they are (MANIFEST entries on the chain excepted)
+        if path:
+            after_lines = set(l for _f, _t, l in lines2)
+            for full, tag, ln in lines:
+                if tag != 'MANIFEST' and not updimpl.starts_with(full, path) and ln not in after_lines:
+                    ctx.fail('out-of-scope-entry-changed', dict(scen, manifest=mp), ln[:200])
+
+
+def twin_case(ctx, drv):
+    """entries the update does not own that share a name with something it does own: a DIST entry named like a listed
+    local file (a stray copy of a distfile that was manifested once), an IGNOREd name next to a look-alike, in the top-level
+    Manifest and in a sub-Manifest; the local file is kept, changed or deleted; whole-tree and sub-directory update"""
+    rng = ctx.rng
+    root = common.scratch_dir('gv.c10t.')
+    try:
+        from harness.trees import entry_line, digests_of
+        names = rng.sample(['foo-1.0.tar.gz', 'x', 'data.txt', 'a.b'], 2)
+        files = {}
+        sub = rng.choice(['cat/pkg', 'sub'])
+        for d in ('', sub):
+            for nm in names:
+                files[os.path.join(d, nm) if d else nm] = os.urandom(rng.randint(1, 9))
+            files[os.path.join(d, 'keep.ebuild') if d else 'keep.ebuild'] = b'EAPI=8'
+        for p, data in files.items():
+            os.makedirs(os.path.dirname(os.path.join(root, p)) or root, exist_ok=True)
+            open(os.path.join(root, p), 'wb').write(data)
+        os.makedirs(os.path.join(root, 'ignored-dir'), exist_ok=True)
+        open(os.path.join(root, 'ignored-dir', 'f'), 'wb').write(b'i')
+        open(os.path.join(root, 'ignored-dir2'), 'wb').write(b'lookalike')
+
+        def lines_for(d):
+            out = []
+            for nm in names:
+                data = files[os.path.join(d, nm) if d else nm]
+                out.append(entry_line(rng.choice(['DATA', 'MISC']), nm, len(data), digests_of(data, ['SHA1'])))
+                out.append(entry_line('DIST', nm, rng.randint(1, 99), {'SHA1': 'ab' * 20}))
+            data = files[os.path.join(d, 'keep.ebuild') if d else 'keep.ebuild']
+            out.append(entry_line('EBUILD', 'keep.ebuild', len(data), digests_of(data, ['SHA1'])))
+            out.append(entry_line('DIST', 'never-local.tar', 5, {'SHA1': 'cd' * 20}))
+            rng.shuffle(out)
+            return out
+        subtext = ''.join(l + '\n' for l in lines_for(sub))
+        open(os.path.join(root, sub, 'Manifest'), 'w').write(subtext)
+        top = lines_for('') + [entry_line('IGNORE', 'ignored-dir'), 'TIMESTAMP 2020-01-01T00:00:00Z',
+                               entry_line('DATA', 'ignored-dir2', 9, digests_of(b'lookalike', ['SHA1'])),
+                               entry_line('MANIFEST', sub + '/Manifest', len(subtext), digests_of(subtext.encode(), ['SHA1']))]
+        rng.shuffle(top)
+        open(os.path.join(root, 'Manifest'), 'w').write(''.join(l + '\n' for l in top))
+        # what happens to the local copies
+        for p in sorted(files):
+            k = rng.choice(['keep', 'keep', 'change', 'delete'])
+            if os.path.basename(p) in names and k != 'keep':
+                if k == 'change':
+                    open(os.path.join(root, p), 'ab').write(b'+')
+                else:
+                    os.unlink(os.path.join(root, p))
+        path = rng.choice(['', sub, sub.split('/')[0]])
+        hashes = rng.choice([['SHA1'], ['MD5', 'SHA256']])
+        before = updimpl.snapshot(root)
+        lines_before = manifest_lines(root)
+        world = trees.world_of(root, set(hashes) | {'SHA1'})
+        o = {'hashes': hashes, 'sort': rng.random() < 0.5}
+        out, eff = updimpl.run_update(root, 'Manifest', path, o)
+        after = updimpl.snapshot(root)
+        model, req = c03.model_update(drv, root, 'Manifest', path, o, eff, world)
+        scen = {'op': 'update-save-twins', 'request': req, 'path': path, 'hashes': hashes}
+        ctx.count('op:twins')
+        ctx.case(json.dumps(req, sort_keys=True)[:100000], True, {'op': 'twins', 'path': path, 'names': names, 'outcome': out})
+        if model.get('err') != 'abstain':
+            c03.compare_with_disk(ctx, scen, root, before, after, model, out)
+        foreign = [p for p in set(before) | set(after) if before.get(p) != after.get(p) and not os.path.basename(p).startswith('Manifest')]
+        if foreign:
+            ctx.fail('non-manifest-file-touched', scen, str(foreign))
+        if 'ok' in out:
+            check_preserved(ctx, scen, root, lines_before, path)
+    finally:
+        trees.rmtree(root)
+
+
 def one_case(ctx, drv):
     rng = ctx.rng
     root = common.scratch_dir('gv.c10.')
@@ -114,26 +208,7 @@ def one_case(ctx, drv):
                 ctx.fail('written-without-save', scen, str(changed))
             # (3) preserved entries
             if op.startswith('update-save') and out and 'ok' in out:
-                lines_after = manifest_lines(root)
-                ign_before = set(i for v in lines_before.values() for i in v[3])
-                ign_after = set(i for v in lines_after.values() for i in v[3])
-                if not ign_before <= ign_after:
-                    ctx.fail('ignore-entries-lost', scen, str(sorted(ign_before - ign_after)))
-                for mp, (keep, tags, lines, _ign) in lines_before.items():
-                    if mp not in lines_after:
-                        continue
-                    keep2, tags2, lines2, _ign2 = lines_after[mp]
-                    if keep != keep2:
-                        ctx.fail('dist-timestamp-entries-changed', dict(scen, manifest=mp), f'{keep} -> {keep2}')
-                    for fp, tg in tags.items():
-                        if fp in tags2 and not (tags2[fp] <= tg) and os.path.isfile(os.path.join(root, fp)):
-                            ctx.fail('entry-type-changed', dict(scen, manifest=mp), f'{fp}: {tg} -> {tags2[fp]}')
-                    # entries for paths outside the updated directory stay as they are (MANIFEST entries on the chain excepted)
-                    if path:
-                        after_lines = set(l for _f, _t, l in lines2)
-                        for full, tag, ln in lines:
-                            if tag != 'MANIFEST' and not updimpl.starts_with(full, path) and ln not in after_lines:
-                                ctx.fail('out-of-scope-entry-changed', dict(scen, manifest=mp), ln[:200])
+                check_preserved(ctx, scen, root, lines_before, path)
     finally:
         trees.rmtree(root)
 
@@ -149,6 +224,8 @@ def run(ctx):
     try:
         for i in range(250 if ctx.tier == 'quick' else 5000):
             one_case(ctx, drv)
+        for i in range(120 if ctx.tier == 'quick' else 3000):
+            twin_case(ctx, drv)
     finally:
         drv.close()
 
